@@ -190,6 +190,7 @@ type Layout struct {
 	TrailBlanks bool   `json:"trail_blanks"` // blanks before line ends
 	AnnGap      int    `json:"ann_gap"`      // blanks between element and annotation (1..n)
 	BlankLines  bool   `json:"blank_lines"`  // empty lines between members
+	PipeStyle   int    `json:"pipe_style"`   // 0 `@a | @b`  1 `@a|@b`  2 `@a| @b`  3 `@a |@b`
 }
 
 // DefaultLayout is the plain style used by the repository's own examples.
@@ -212,6 +213,7 @@ func RandLayout(rng *rand.Rand) Layout {
 		TrailBlanks: rng.IntN(4) == 0,
 		AnnGap:      1 + rng.IntN(3),
 		BlankLines:  rng.IntN(5) == 0,
+		PipeStyle:   []int{0, 0, 1, 2, 3}[rng.IntN(5)],
 	}
 	return l
 }
@@ -447,7 +449,7 @@ func (p *printer) element(n *Node, level int, tail string, ownLine bool) {
 		p.indent(level)
 		p.sb.WriteString(close + tail)
 	case KRef:
-		p.sb.WriteString(strings.Join(n.Refs, " | "))
+		p.sb.WriteString(strings.Join(n.Refs, []string{" | ", "|", "| ", " |"}[p.l.PipeStyle%4]))
 		p.sb.WriteString(tail)
 		p.annotation(n, level)
 		if !(p.hasAnn(n) && p.l.Multi) && ownLine {
